@@ -941,6 +941,17 @@ func (ms *moduleStore) getModule(name string) (moduleStoreItem, bool) {
 	return indexes, ok
 }
 
+func (ms *moduleStore) clone() moduleStore {
+	c := moduleStore{count: ms.count}
+	if ms.store != nil {
+		c.store = make(map[string]moduleStoreItem, len(ms.store))
+		for k, v := range ms.store {
+			c.store[k] = v
+		}
+	}
+	return c
+}
+
 func (ms *moduleStore) reset() {
 	if ms == nil {
 		return
